@@ -43,3 +43,11 @@ Proof.
     exists (TCfg 1 [] [] [] [] false false). split; [reflexivity|]. exists [], [], []. reflexivity.
   - vm_compute. reflexivity.
 Qed.
+
+(** ** tie to the source text (regenerated at every run, see Generated/Facts.v): the order of the
+    three passes and the reversal of the type order for removals are those written in
+    [HermesServer.generateAndSendEvents] now *)
+From Hermes Require Import Proofs.FactsTieServer.
+Theorem C03_pass_order_is_the_source_s : forall c n o, gen_events_facts c n o = gen_events c n o.
+Proof. exact server_phases_tie. Qed.
+Print Assumptions C03_pass_order_is_the_source_s.
